@@ -56,13 +56,17 @@ func genC20Plan(r *sim.Rng, tier string) C20Plan {
 	p.Conf = LalConf{ApiEnable: true, FlvEnable: true, TsEnable: true, RtspEnable: true, HlsEnable: r.Bool(0.6), HlsFragMs: 300, HlsFragNum: 3, HlsCleanup: r.Intn(3),
 		RtmpGop: r.Intn(2), FlvGop: r.Intn(2), TsGop: r.Intn(2), RecordFlv: r.Bool(0.3), RecordTs: r.Bool(0.3), MergeWrite: []int{0, 0, 2000}[r.Intn(3)], NoHook: r.Bool(0.5)}
 	if r.Bool(0.4) {
-		p.Conf.HlsSubKey = "simsubkey" // HLS sub-session mode: players are redirected to a URL with a session_id and poll with it
+		p.Conf.HlsSubKey = "simsubkey"                               // HLS sub-session mode: players are redirected to a URL with a session_id and poll with it
+		p.Conf.HlsSubTimeoutMs = []int{30000, 1500, 2500}[r.Intn(3)] // short: sessions expire (and are reaped by the 1 s sweeper) within a run
 	}
 	if r.Bool(0.3) {
 		p.Conf.QueueSize = []int{4, 8, 16}[r.Intn(3)] // small per-subscriber write queues: "stall" ops fill them quickly
 	}
 	if sim.RaceEnabled {
 		p.Sched = sim.SchedParams{Free: true, MaxSteps: 60000, MaxSimSec: 3600, SegMode: r.Intn(2)}
+		if r.Bool(0.4) {
+			p.Sched.AlignTick = []float64{0.1, 0.3}[r.Intn(2)] // handlers that wake at the instant the tickers fire
+		}
 	} else {
 		p.Sched = GenSched(r.Fork("sched"), true)
 		p.Sched.Preempt = 4 + r.Intn(12)
@@ -383,8 +387,12 @@ func runC20(k *sim.Kernel, p C20Plan) {
 		}
 	}
 	k.Settle()
+	k.SetAlignTick(0) // from here on completion is judged: nobody is sent to sleep any more, the sleepers wake within a second
 	k.Advance(2500 * time.Millisecond)
 	k.Settle()
+	if n := k.AlignSleeps(); n > 0 {
+		k.Probe("c20_goroutines_aligned_with_the_tick")
+	}
 	// ---- bounded completion
 	for i, a := range apis {
 		if a.C == nil {
